@@ -15,6 +15,7 @@ list, XOR-linearity of the division); the only enumerations are the 256 table ro
 -/
 import Rs1090.Proofs.CrcIcao
 import Rs1090.Gen.CrcGate
+import Rs1090.Gen.HiddenState
 namespace Rs1090.Props.C02
 open Rs1090 Rs1090.Spec.Crc Rs1090.Model Rs1090.Model.Message Rs1090.Proofs.Crc
 
@@ -427,5 +428,17 @@ example : (tryFrom (encodeAP [0xa0,0x00,0x04,0x10,0xbc,0x90,0x00,0x10,0xa4,0x00,
 
 /-- a short one: DF4, altitude code 0x0518… any address -/
 example : (tryFrom (encodeAP [0x20,0x00,0x05,0x18] 0xabcdef)).isOk = true := by decide +kernel
+
+/-! ### hidden state (the code side of "is a function of its input") -/
+
+/-- **No hidden state besides the reviewed one** in the files this property is anchored in.  The theorems of this file are about the FUNCTION `modes_checksum` and the gate of `Message::try_from`; the only site is the serialisation switch `CONFIG` of mod.rs (read by `Serialize for TimedMessage`, never by the checksum or the decoder).
+    The translator lists on every run every construct through which a Rust function can carry state from one
+    call to the next without it showing in its signature (`static`, `thread_local!`, `lazy_static!`,
+    `OnceCell`/`OnceLock`/`Lazy`, `Cell`/`RefCell`/`UnsafeCell`, `Mutex`/`RwLock`, atomics, `unsafe`; whole
+    files, gen/extractors/hidden_state.py); a memo, cache or counter added there breaks this obligation by
+    name, whatever inputs the harness happens to generate. -/
+theorem hidden_state_reviewed :
+    Gen.HiddenState.sitesIn ["decode/crc.rs", "decode/mod.rs"] =
+      [("decode/mod.rs", "static CONFIG: OnceCell<SerializeConfig> = OnceCell::new();")] := by decide
 
 end Rs1090.Props.C02
